@@ -604,7 +604,7 @@ class SVal:
         it = self.ev(st.iter, env, pc) if isinstance(st, ast.For) else None
         if it_override is not None:
             it = it_override
-        if it is not None and not getattr(st, 'orelse', None) and it[0] in ('tuple', 'list') and 1 <= len(it[1]) <= 4 \
+        if it is not None and not getattr(st, 'orelse', None) and it[0] in ('tuple', 'list') and 1 <= len(it[1]) <= (8 if _accumulation_only(st.body) else 4) \
                 and not any(isinstance(x, tuple) and x and x[0] in ('star', 'when', 'each', 'acc') for x in it[1]) \
                 and not any(isinstance(x, (ast.Break, ast.Continue)) for s_ in st.body for x in walk_no_nested(s_)
                             if not isinstance(x, (ast.For, ast.While))):
@@ -866,6 +866,13 @@ class SVal:
                     if isinstance(v_, (ast.Dict, ast.Tuple, ast.List, ast.Set)):
                         return mk_attr(('param', self.fi.self_name), e.attr)
                 return ('global', b[1] + '.' + e.attr)
+            # a nested class of the receiver's class read through the receiver (`self.Type.X`, `cls.Type.X`) is the class the code base
+            # names through the class (`TrafficSelector.Type.X`)
+            cls_ = getattr(self.fi, 'cls', None)
+            if cls_ is not None and b == ('param', getattr(self.fi, 'self_name', None) or '?'):
+                for k_ in cls_.mro():
+                    if any(isinstance(n_, ast.ClassDef) and n_.name == e.attr for n_ in k_.node.body):
+                        return ('global', k_.qual + '.' + e.attr)
             return mk_attr(b, e.attr)
         if isinstance(e, ast.BinOp):
             return mk_bin(_BINOPS.get(type(e.op), '?'), ev(e.left), ev(e.right))
@@ -1272,6 +1279,34 @@ def _key(node):
     if isinstance(node, ast.Name):
         return node.id
     return attr_chain(node)
+
+
+def _accumulation_only(body):
+    """the statements only rebind local names and append to local lists (a splitting / summing loop)"""
+    for s in body:
+        if isinstance(s, ast.Expr):
+            c = s.value
+            if not (isinstance(c, ast.Call) and isinstance(c.func, ast.Attribute) and c.func.attr == 'append'
+                    and isinstance(c.func.value, ast.Name) and len(c.args) == 1 and not c.keywords):
+                return False
+            inner = c.args
+        elif isinstance(s, ast.Assign):
+            if not all(isinstance(t, ast.Name) for t in s.targets):
+                return False
+            inner = [s.value]
+        elif isinstance(s, ast.AugAssign):
+            if not isinstance(s.target, ast.Name):
+                return False
+            inner = [s.value]
+        else:
+            return False
+        for e in inner:
+            for x in ast.walk(e):
+                if isinstance(x, ast.Call) and not (isinstance(x.func, ast.Name) and x.func.id in ('len', 'int', 'bytes', 'min', 'max')):
+                    return False
+                if isinstance(x, (ast.Lambda, ast.ListComp, ast.GeneratorExp, ast.DictComp, ast.SetComp, ast.NamedExpr, ast.Await, ast.Yield)):
+                    return False
+    return True
 
 
 def _gated_iter(it):
